@@ -65,7 +65,11 @@ for (f,i,a,b,rep,ps) in cands:
         order=ps+[p for p in ['C01','C04','C05','C20','C10'] if p not in ps]
         t0=time.time()
         for p in order:
-            r=sh(f'{H}/target/release/nv check {p} quick 2>&1 | grep -E "^VIOLATION|^MACHINERY" | head -2',env={'VERIF_DIR':VD,'NV_BUDGET_S':'40'})
+            try:
+                r=sh(f'{H}/target/release/nv check {p} quick 2>&1 | grep -E "^VIOLATION|^MACHINERY" | head -2',env={'VERIF_DIR':VD,'NV_BUDGET_S':'40'},timeout=400)
+            except subprocess.TimeoutExpired:
+                sh('pkill -f /tmp/mut/harness/target/release/nv')
+                killed=p+'(HUNG-CHECK)'; break
             if 'VIOLATION' in r.stdout:
                 killed=p; break
             if 'MACHINERY' in r.stdout:
